@@ -183,3 +183,7 @@ fn c09_streaming_reported_position_follows_the_heard_frame_across_ring_wrap() {
 	kani::cover!(rot == 7 && n == 3, "w:frames-straddle-the-wrap");
 	std::mem::forget(s); std::mem::forget(prod);
 }
+
+// (C09: a lock-step harness - a real static sound from StaticSoundData::into_sound and a real StreamingSound over the same
+// 5 frames, 3 callbacks, one shared uninterpreted interpolate_frame - produced 24 M SAT variables and ran out of memory at
+// 32 GB; it was removed. The equality of whole outputs rests on the two one-step relations above and in c04_static_sound.rs.)
